@@ -163,10 +163,16 @@ namespace occa {
     } else {
       // Handle the multiple other formats with normal digits
       if (decimal || float_) {
+        // The sign and the blanks that may follow it were consumed above:
+        // convert the digits and apply the sign, like the integer branch
+        const std::string digitsText(cDigits, c - cDigits);
         if (float_) {
-          p = (float) occa::parseFloat(std::string(c0, c - c0));
+          p = (float) occa::parseFloat(digitsText);
         } else {
-          p = (double) occa::parseDouble(std::string(c0, c - c0));
+          p = (double) occa::parseDouble(digitsText);
+        }
+        if (negative) {
+          p = primitive::negative(p);
         }
       } else {
         // A leading 0 starts an octal literal
